@@ -63,7 +63,7 @@ CLAIMS = {
                 text="the real wait() bodies of CountingBarrier, MCSBarrier, DisseminationBarrier, TopoBarrier (over the real per-thread/per-socket storage, topologies {0,0} and {0,1}; T=3 with 5 topologies in the thorough tier) and SimpleBarrier (mutex/condition-variable contract models, one phase) (state built by the real constructors/reinit) run as step machines under a solver-chosen schedule: no thread returns from its k-th wait before every participant entered it, every thread returns (deadlock probe + step-bound assertion), reuse over 2-3 phases, reinit to a different participant count between regions, T=1; the bookkeeping of internal::BarrierInstance::get (the object behind getBarrier) over four symbolic requests: the barrier handed out is initialised for exactly min(n, usable threads).",
                 note="T=2 in the quick tier; thorough: T=3 for Counting, MCS and Topo (DisseminationBarrier with T=3 runs out of memory and is NOT covered) and the plain-accesses-visible twins for Counting and MCS with T=2; SC values only. PthreadBarrier (a libc object) is not encoded."),
     "C06": dict(tech=TECH_CONC, ref="DESIGN.md section 3 C06 and section 7",
-                text="SimpleLock lock()/try_lock()/unlock() under all schedules of T=2 (T=3 thorough) x 2 acquisitions: at most one holder, every requester admitted, no deadlock; the release->acquire edge is a happens-before edge for a plain payload under ghost vector clocks that honour the memory orders found in the IR (weakening unlock() to relaxed is reported); an asymmetric 1+3 acquisition run (a slow-path waiter that loses a compare-exchange meets a re-acquired lock); entry to and return from a parallel region (fastRelease / done flags, unit C06_forkjoin = C03_join): data written by the master before the region is visible to the woken thread, data written by a worker in the region is visible to the master after decascade(), under the memory orders in the code.",
+                text="SimpleLock lock()/try_lock()/unlock() under all schedules of T=2 x 2 acquisitions (T=3 did not finish in 90 min and is not run): at most one holder, every requester admitted, no deadlock; the release->acquire edge is a happens-before edge for a plain payload under ghost vector clocks that honour the memory orders found in the IR (weakening unlock() to relaxed is reported); an asymmetric 1+3 acquisition run (a slow-path waiter that loses a compare-exchange meets a re-acquired lock); entry to and return from a parallel region (fastRelease / done flags, unit C06_forkjoin = C03_join): data written by the master before the region is visible to the woken thread, data written by a worker in the region is visible to the master after decascade(), under the memory orders in the code.",
                 note="PtrLock, PaddedLock, ThreadRWlock and the remaining promised edges (lockable hand-over is checked in C02; barrier arrival->departure and worklist push->pop are checked for values under SC only, not with clocks) are not encoded; starvation freedom is not decidable by a bounded check."),
     "C02": dict(tech=TECH_CONC, ref="DESIGN.md section 3 C02 and section 7",
                 text="ownership protocol over the real Context.cpp / PtrLock (tryAcquire, acquire, signalConflict via the longjmp model, commitIteration, cancelIteration) for 2 contexts and 2 lockables over every sequence of three WHOLE operations (acquire with symbolic target/flag, commit, cancel; operations alternate, they do not interleave): never two owners (ghost owner stamps), ALREADY_OWNER only for the true owner, commit/abort frees everything, nothing left owned, hand-over of object data is happens-before; flag semantics (UNPROTECTED/PREVIOUS never touch the owner word).",
